@@ -119,9 +119,17 @@ Definition c08_class (ec : ecase) : option N :=
   let l := c08_steps (ec_cfg ec) (ec_long ec) in
   let p := c08_steps (ec_cfg ec) (ec_pers ec) in
   if (l =? 0) && (p =? 0) then None
-  else if (l =? 1) || (p =? 1) then Some 0
-  else if has_croak (ec_app ec) then Some 1
-  else Some 0.
+  (* class 2 = K-C08-first: an entry function is configured (runFirst pushes "_first" unguarded:
+     panic at maximal depth; a failing entry function leaves "_first" on the stack);
+     class 3 = K-C08-flagcount: FlagCount + 8 > 2040 (uint8 byte size: flag field shorter than BitSize) *)
+  else if 2040 <? c_flagcount (ec_cfg ec) + 8 then Some 3
+  else match c_first (ec_cfg ec) with
+       | Some _ => Some 2
+       | None =>
+         if (l =? 1) || (p =? 1) then Some 0
+         else if has_croak (ec_app ec) then Some 1
+         else Some 0
+       end.
 Fixpoint classify {A} (f : A -> option N) (i : N) (l : list A) : list (N * N) :=
   match l with
   | [] => []
@@ -130,9 +138,14 @@ Fixpoint classify {A} (f : A -> option N) (i : N) (l : list A) : list (N * N) :=
 Definition engine_violations_c08 (cs : list ecase) : list (N * N) := classify c08_class 0 cs.
 
 (* ---- C07: persisted operation answers like the long-lived engine, up to the end of the session ---- *)
+(* the application's entry functions are part of what a request can observe: they must be called
+   with the same symbol, language and input in both modes *)
+Definition func_calls (o : eobs) : list ocall :=
+  filter (fun c => match c with OcFunc _ _ _ => true | _ => false end) (eo_calls o).
 Definition same_answer (a b : eobs) : bool :=
   Bool.eqb (eo_cont a) (eo_cont b) && ostat_eqb (eo_exec a) (eo_exec b)
-  && bytes_eqb (eo_out a) (eo_out b) && ostat_eqb (eo_flush a) (eo_flush b).
+  && bytes_eqb (eo_out a) (eo_out b) && ostat_eqb (eo_flush a) (eo_flush b)
+  && list_eqb ocall_eqb (func_calls a) (func_calls b).
 Fixpoint c07_steps (l p : list (bytes * eobs)) : bool :=
   match l, p with
   | (_, a) :: l', (_, b) :: p' => same_answer a b && (if eo_cont a then c07_steps l' p' else true)
